@@ -13,7 +13,7 @@ if ARGS and ARGS[0] == "--gens":
     ONLY = set(ARGS[1].split(","))
     ARGS = ARGS[2:]
 PROPS = ARGS or ["C01", "C03", "C04", "C06", "C07", "C08", "C09", "C10", "C11", "C12", "C18", "C19", "C13"]
-UNIV = {"fix": None, "exh": None, "gram": 1_000_000, "imp": 200_000, "nl": 300_000, "mut": 600_000, "corp": None, "nest": None, "tab": None, "raw": None}
+UNIV = {"fix": None, "exh": None, "gram": 1_000_000, "imp": 200_000, "nl": 300_000, "mut": 600_000, "corp": None, "nest": None, "tab": None, "raw": None, "exh2": None}
 if ONLY:
     UNIV = {g: n for g, n in UNIV.items() if g in ONLY}
 path = f"{V}/known-indices.json"
